@@ -34,6 +34,10 @@ def _data_variants(rng, src_shape, n):
     out.append((f"1ch_{np.dtype(dt).name}", vals.reshape(src_shape), None))
     multi = np.stack([ids, ids * 2 + 1, -ids], axis=-1).astype(rng.choice([np.int32, np.float64]))
     out.append((f"3ch_{multi.dtype.name}", multi.reshape(tuple(src_shape) + (3,)), None))
+    if len(src_shape) == 2:
+        # same values, other memory layouts (Fortran order, transposed view of a C array)
+        out.append(("ids_int64_F", np.asfortranarray(ids.reshape(src_shape)), None))
+        out.append(("1ch_float32_Tview", np.ascontiguousarray(vals.astype(np.float32).reshape(src_shape).T).T, None))
     mask = np.array([rng.random() < 0.3 for _ in range(n)])
     out.append(("masked_float64", np.ma.array(ids.astype(float).reshape(src_shape), mask=mask.reshape(src_shape)), mask))
     return out
@@ -65,9 +69,10 @@ def check_pair(ctx, src, tgt, radius, desc):
             ctx.disagree("valid", inp0, np.asarray(vii).astype(int).tolist(), rep)
     n_valid = int(sv.sum())
     if n_valid and tv.any():
-        sel = np.flatnonzero(sv)
-        tsel = np.flatnonzero(tv)
+        sel = np.flatnonzero(np.asarray(vii, bool))      # decode with the implementation's own filter
+        tsel = np.flatnonzero(np.asarray(voi, bool))
         ia = np.asarray(ia).ravel()
+        n_valid = len(sel)
         bad = []
         for k, j in enumerate(tsel):
             if near_thr[j]:
